@@ -235,7 +235,7 @@ def xtag(ns, name):
 
 class Exp:
     """expected ElementTree node"""
-    __slots__ = ("tag", "attrs", "text", "tail", "children", "mixed", "adjacent")
+    __slots__ = ("tag", "attrs", "text", "tail", "children", "mixed", "adjacent", "chunks")
 
     def __init__(self, tag):
         self.tag = tag
@@ -245,6 +245,7 @@ class Exp:
         self.children = []
         self.mixed = False
         self.adjacent = False
+        self.chunks = []  # all text chunks directly inside this element, in document order
 
 
 def expected_attr_name(a, with_resmap):
@@ -268,6 +269,7 @@ def expected_tree(e, with_resmap):
             if prev_text:
                 x.adjacent = True
             prev_text = True
+            x.chunks.append(c.text)
             if last is None:
                 x.text += c.text
             else:
@@ -286,7 +288,7 @@ def make_case(rng):
     g = Gen(rng, special, utf8)
     root = g.elem([], 0)
     if special == "utf16-2unit-length":
-        big = "".join(rng.choice("abcdefgh é中") for _ in range(rng.choice((0x8000, 0x8001, 0x9000))))
+        big = "".join(rng.choice("abcdefgh é中") for _ in range(rng.choice((0x8000, 0x8001, 0x9000, 0x10000, 0x10005, 0x18001))))
         if rng.random() < 0.5 or not root.attrs:
             root.children.insert(0, W.Text(big))
         else:
@@ -308,16 +310,24 @@ def has_suppl(s):
     return any(ord(c) > 0xFFFF for c in s)
 
 
-def string_mech(want, feats, base):
-    if feats["pool"] == "utf16" and want.startswith("\ufeff"):
-        return "utf16-string-starts-with-bom"
-    if feats["special"] == "cesu8-supplementary" and has_suppl(want):
-        return "utf8-pool-surrogate-pair-encoded-supplementary"
+def known_string_symptom(want, got, feats):
+    """-> mechanism of a known string-decoding defect if `got` is exactly what that defect produces from `want`, else None"""
+    if feats["pool"] == "utf16" and want.startswith("\ufeff") and got == want[1:]:
+        return "utf16-string-starts-with-bom"  # decoded with codec 'utf-16': a leading U+FEFF is eaten as byte order mark
+    if feats["special"] == "cesu8-supplementary" and has_suppl(want) and got == "".join("\ufffd" * 6 if ord(c) > 0xFFFF else c for c in want):
+        return "utf8-pool-surrogate-pair-encoded-supplementary"  # strict utf-8 decoder: each byte of the two encoded surrogates becomes U+FFFD
+    return None
+
+
+def string_mech(want, got, feats, base):
+    k = known_string_symptom(want, got, feats)
+    if k:
+        return k
     if has_suppl(want):
         return base + "-supplementary-" + feats["pool"]
     if len(want) >= 0x8000:
         return base + "-2unit-length"
-    return base
+    return base + "-" + (feats["special"] or "base")
 
 
 def real_children(el):
@@ -339,7 +349,7 @@ def compare(x, el, feats, out, path="/"):
         g = got.pop(qn)
         if a.dtype == W.TYPE_STRING:
             if g != a.value:
-                out.append((string_mech(a.value, feats, "attr-value-string"), {"at": path, "attr": qn, "got": g, "want": a.value}))
+                out.append((string_mech(a.value, g, feats, "attr-value-string"), {"at": path, "attr": qn, "got": g, "want": a.value}))
         elif a.dtype in ODD:
             pass  # don't-care
         else:
@@ -351,12 +361,14 @@ def compare(x, el, feats, out, path="/"):
         out.append(("attr-unexpected", {"at": path, "got": qn}))
     gtext = el.text or ""
     if gtext != x.text:
+        # known symptom of "TEXT assigns elem.text": the element's text is its LAST chunk, whatever came before
+        overwritten = bool(x.chunks) and gtext == x.chunks[-1]
         if x.mixed:
-            m = "text-after-child-element"
+            m = "text-after-child-element" if overwritten else "text-differs-mixed-content"
         elif x.adjacent:
-            m = "text-adjacent-chunks"
+            m = "text-adjacent-chunks" if overwritten else "text-differs-adjacent-chunks"
         else:
-            m = string_mech(x.text, feats, "text-differs")
+            m = string_mech(x.text, gtext, feats, "text-differs")
         out.append((m, {"at": path, "got": gtext, "want": x.text}))
     kids = real_children(el)
     if len(kids) != len(x.children):
@@ -365,7 +377,8 @@ def compare(x, el, feats, out, path="/"):
     for i, (k, xk) in enumerate(zip(kids, x.children)):
         gtail = k.tail or ""
         if gtail != xk.tail:
-            out.append(("text-after-child-element", {"at": "%s%d/tail" % (path, i), "got": gtail, "want": xk.tail}))
+            # same known symptom seen from the child: its tail is never set
+            out.append(("text-after-child-element" if gtail == "" else "tail-differs", {"at": "%s%d/tail" % (path, i), "got": gtail, "want": xk.tail}))
         compare(xk, k, feats, out, "%s%d/" % (path, i))
 
 
